@@ -7,14 +7,14 @@ polynomial arithmetic, mirrored statement by statement at the level of VALUES on
 
   model                                   mirrors
   atOffset                                a callee working on the pointer `&buffer[off]`
-  fqWriteTo                               Fq::write_big_endian(uint8_t*) on a memory region        (fq.cpp l.85)
+  fqWriteTo                               Fq::write_big_endian(uint8_t*) on a memory region        (fq.cpp l.79)
   fq2WriteTo / fq2WriteBE, fq2ReadBE      Fq2::write_big_endian / read_big_endian                  (fq2.cpp l.179-187)
   fq6WriteTo / fq6WriteBE, fq6ReadBE      Fq6::write_big_endian / read_big_endian                  (fq6.cpp l.306-316)
   fq12WriteTo / fq12WriteBE, fq12ReadBE   Fq12::write_big_endian / read_big_endian                 (fq12.cpp l.203-211)
   fq2Exponentiate / fq6… / fq12…          core::exponentiate<F, BigInt<bits>> for F = Fq2, Fq6, Fq12 (fp_utils.hpp l.89;
                                           default build; `…CT` = under RESIST_SIDE_CHANNELS)
-  fq2Norm, fq2Legendre                    Fq2::norm, Fq2::legendre                                  (fq2.cpp l.131-142)
-  fq2IsZero, fq2Equal, fq2SquareRoot      Fq2::is_zero, Fq2::equal, Fq2::square_root                (fq2.cpp l.50, l.189, l.145)
+  fq2Norm, fq2Legendre                    Fq2::norm, Fq2::legendre                                  (fq2.cpp l.132-143)
+  fq2IsZero, fq2Equal, fq2SquareRoot      Fq2::is_zero, Fq2::equal, Fq2::square_root                (fq2.cpp l.50, l.189, l.146)
 
 Wire order (most significant coefficient first): Fq2 = c1 ‖ c0; Fq6 = c2 ‖ c1 ‖ c0; Fq12 = c1 ‖ c0, i.e. for Fq12 the
 twelve 48-byte big-endian integers c1.c2.c1, c1.c2.c0, c1.c1.c1, c1.c1.c0, c1.c0.c1, c1.c0.c0, c0.c2.c1, …, c0.c0.c0.
